@@ -22,12 +22,13 @@ def rd(rel):
 
 # ---------------------------------------------------------------- arithmetic expressions
 def tokenize(s):
-    toks = re.findall(r'\s*(\d+|\w+!?|[-+*/()])', s)
+    toks = re.findall(r'\s*(\d+|\w+!?|>>|<<|[-+*/()])', s)
     if ''.join(toks) != re.sub(r'\s+', '', s):
         raise Broken("cannot tokenize expression %r" % s)
     return toks
 
-def parse_expr(s):
+def parse_expr(s, shift_tight=False):
+    # shift_tight: Go puts << and >> on the level of * and /; Solidity (and C) put them below + and -
     toks = tokenize(s)
     pos = [0]
     def peek():
@@ -49,15 +50,21 @@ def parse_expr(s):
         raise Broken("unexpected token %r in %r" % (t, s))
     def term():
         e = atom()
-        while peek() in ('*', '/'):
+        while peek() in (('*', '/', '>>', '<<') if shift_tight else ('*', '/')):
             op = eat()
             e = (op, e, atom())
         return e
-    def expr():
+    def addsub():
         e = term()
         while peek() in ('+', '-'):
             op = eat()
             e = (op, e, term())
+        return e
+    def expr():   # shifts below + and - (not reached for Go: taken at term level there)
+        e = addsub()
+        while peek() in ('>>', '<<'):
+            op = eat()
+            e = (op, e, addsub())
         return e
     e = expr()
     if pos[0] != len(toks):
@@ -73,6 +80,10 @@ def gallina(e, div, rename=None):
     a, b = gallina(e[1], div, rename), gallina(e[2], div, rename)
     if k == '/':
         return "(%s %s %s)" % (div, a, b)
+    if k == '>>':
+        return "(Z.shiftr %s %s)" % (a, b)
+    if k == '<<':
+        return "(Z.shiftl %s %s)" % (a, b)
     return "(%s %s %s)" % (a, k, b)
 
 # ---------------------------------------------------------------- individual extractors
@@ -81,12 +92,12 @@ def x_quorum_go():
     m = re.search(r'func CalculateQuorum\((\w+) int\) int \{\s*return (.+?)\s*\}', src, re.S)
     if not m:
         raise Broken("CalculateQuorum: single-return shape not found")
-    e = parse_expr(re.sub(r'//[^\n]*|/\*.*?\*/', '', m.group(2)))
+    e = parse_expr(re.sub(r'//[^\n]*|/\*.*?\*/', '', m.group(2)), shift_tight=True)
     # Go int division truncates toward zero
     return "Definition go_quorum (n : Z) : Z := %s.\n" % gallina(e, "Z.quot", {m.group(1): "n"}), {"expr": m.group(2)}
 
 def x_quorum_sol():
-    src = rd("ethereum/contracts/Messages.sol")
+    src = re.sub(r'//[^\n]*|/\*.*?\*/', '', rd("ethereum/contracts/Messages.sol"), flags=re.S)   # comments are not code
     m = re.search(r'function quorum\(uint (\w+)\)[^{]*\{\s*return (.+?);\s*\}', src, re.S)
     if not m:
         raise Broken("Messages.sol quorum(): single-return shape not found")
